@@ -91,24 +91,33 @@ def run(chk):
                 args = ['--enable-reverse-proxy'] + (['--rewrite-host-header'] if rewrite else [])
                 conv = scen.Conversation(args=args, flag_opts={'plugins': [plugin]})
                 c = conv.client()
-                conns, ugot, cgot = [], [], []
+                conns, ugot, cgot, reused = [], [], [], []
+                current = None
                 for raw in seq:
                     n0, g0, u0 = len(conv.sim.world.connects), len(c.got), len(conv.sim.upstreams)
+                    seen0 = len(current.got) if current is not None else 0
                     for piece in scen.pieces(raw, rnd, rnd.choice(['one', 'two', 'crlf'])):
                         conv.step(('c', piece))
                     new = conv.sim.upstreams[u0:]
                     if new:
-                        new[-1].write(RESP)
+                        current, seen0 = new[-1], 0
+                        reused.append({'host': [], 'port': 0})
+                    elif current is not None and len(current.got) > seen0:
+                        reused.append({'host': list(str(current.addr[0]).encode()), 'port': current.addr[1]})   # an established upstream connection was used
+                    else:
+                        reused.append({'host': [], 'port': 0})
+                    if current is not None and len(current.got) > seen0 and not current.closed:
+                        current.write(RESP)
                         conv.settle()
                     conns.append([{'host': list(str(x['host']).encode()), 'port': x['port']} for x in conv.sim.world.connects[n0:]])
-                    ugot.append(list(new[-1].got) if new else [])
+                    ugot.append(list(current.got[seen0:]) if current is not None else [])
                     cgot.append(list(c.got[g0:]))
                     if c.eof_seen:
                         break
                 k = len(conns)
                 cid = len(cases) + 1
                 cases.append({'id': cid, 'routes': [{'kind': r['kind'], 'prefix': list(r['prefix']), 'urls': [list(u) for u in r['urls']]} for r in table],
-                              'rewrite': rewrite, 'reqs': [list(r) for r in seq[:k]], 'conns': conns, 'ugot': ugot, 'cgot': cgot,
+                              'rewrite': rewrite, 'reqs': [list(r) for r in seq[:k]], 'conns': conns, 'reused': reused, 'ugot': ugot, 'cgot': cgot,
                               'resp': list(RESP), 'literal': list(LITERAL)})
                 descs[cid] = {'routes': [(r['kind'], r['prefix'].decode(), [u.decode() for u in r['urls']]) for r in table], 'rewrite': rewrite,
                               'requests': [r.split(b'\r\n')[0].decode() for r in seq[:k]], 'loop_alive': conv.sim.alive}
@@ -123,7 +132,8 @@ def run(chk):
         if clause.startswith('machinery'):
             raise MachineryError('case %d: %s' % (cid, clause))
         d, c = descs[cid], byid[cid]
-        sig = {'clause': clause.split(' (request')[0], 'second_request': '(request 2)' in clause}
+        sig = {'clause': clause.split(' (request')[0], 'second_request': '(request 2)' in clause,
+               'switched_upstream': len(c['conns']) > 1 and len(c['conns'][1]) > 0 and len(c['conns'][0]) > 0}
         chk.violation(sig, '%s rewrite=%s %s: %s' % (d['routes'], d['rewrite'], d['requests'], clause),
                       {'case': d, 'connections': [[(bytes(x['host']).decode(), x['port']) for x in k] for k in c['conns']],
                        'upstream_received': [bytes(u).decode('latin1')[:300] for u in c['ugot']],
